@@ -58,9 +58,16 @@ impl SocketSend for ReqSocket {
                 }
             };
             if let Some(mut peer) = self.backend.peers.get_async(&next_peer_id).await {
-                self.backend.round_robin.push(next_peer_id.clone());
                 message.push_front(Bytes::new());
-                peer.send_queue.send(Message::Message(message)).await?;
+                let send_result = peer.send_queue.send(Message::Message(message)).await;
+                drop(peer);
+                if let Err(e) = send_result {
+                    // The connection is gone: forget the peer instead of rotating
+                    // back to it.
+                    self.backend.peer_disconnected(&next_peer_id);
+                    return Err(e.into());
+                }
+                self.backend.round_robin.push(next_peer_id.clone());
                 self.current_request = Some(next_peer_id);
                 return Ok(());
             }
